@@ -547,6 +547,17 @@ func (e *sidEnv) basicProgram(addrs [][8]byte, ids []atree.SlabID) {
 	gen := map[atree.SlabID]bool{}
 	var it atree.SlabIterator
 	itCount := 0
+	// model-free oracle: a Go map kept by the harness (a slab filed as nil is a key with a nil value)
+	shadow := map[atree.SlabID]atree.Slab{}
+	var itWant []string
+	entries := func() []string {
+		var p []string
+		for id, sl := range shadow {
+			p = append(p, rawHex(id)+":"+verStr(sl))
+		}
+		sort.Strings(p)
+		return p
+	}
 	withUndef := e.prog%3 == 0 // one program in three may file a slab under SlabIDUndefined
 	steps := 40 + e.rng.Intn(60)
 	for k := 0; k < steps; k++ {
@@ -578,6 +589,7 @@ func (e *sidEnv) basicProgram(addrs [][8]byte, ids []atree.SlabID) {
 			if err := s.Store(id, slab); err != nil {
 				panic(err)
 			}
+			shadow[id] = slab
 			e.w.L("BOP store id=%s v=%s", rawHex(id), vs)
 			e.w.L("OBS ok")
 			e.st.Hit("basic.store")
@@ -589,6 +601,7 @@ func (e *sidEnv) basicProgram(addrs [][8]byte, ids []atree.SlabID) {
 			if err := s.Remove(id); err != nil {
 				panic(err)
 			}
+			delete(shadow, id)
 			e.w.L("BOP remove id=%s", rawHex(id))
 			e.w.L("OBS ok")
 		case c < 75:
@@ -599,13 +612,23 @@ func (e *sidEnv) basicProgram(addrs [][8]byte, ids []atree.SlabID) {
 			}
 			e.w.L("BOP retrieve id=%s", rawHex(id))
 			e.w.L("OBS slab=%s found=%d", verStr(slab), b2i(ok))
+			if want, in := shadow[id]; slab != want || ok != in {
+				e.violation("C15", fmt.Sprintf("BasicSlabStorage.Retrieve(%s) = (%s, %v), the map holds (%s, %v)", rawHex(id), verStr(slab), ok, verStr(want), in))
+			}
 		case c < 82:
 			id := e.pickID(&pool, ids)
 			e.w.L("BOP loaded id=%s", rawHex(id))
-			e.w.L("OBS slab=%s", verStr(s.RetrieveIfLoaded(id)))
+			got := s.RetrieveIfLoaded(id)
+			e.w.L("OBS slab=%s", verStr(got))
+			if got != shadow[id] {
+				e.violation("C15", fmt.Sprintf("BasicSlabStorage.RetrieveIfLoaded(%s) = %s, the map holds %s", rawHex(id), verStr(got), verStr(shadow[id])))
+			}
 		case c < 87:
 			e.w.L("BOP count")
 			e.w.L("OBS n=%d", s.Count())
+			if s.Count() != len(shadow) {
+				e.violation("C15", fmt.Sprintf("BasicSlabStorage.Count() = %d, the map holds %d entries", s.Count(), len(shadow)))
+			}
 		case c < 91:
 			l := s.SlabIDs()
 			var p []string
@@ -615,6 +638,14 @@ func (e *sidEnv) basicProgram(addrs [][8]byte, ids []atree.SlabID) {
 			sort.Strings(p)
 			e.w.L("BOP ids")
 			e.w.L("OBS ids=%s", joinOrDash(p))
+			var want []string
+			for id := range shadow {
+				want = append(want, rawHex(id))
+			}
+			sort.Strings(want)
+			if joinOrDash(p) != joinOrDash(want) {
+				e.violation("C15", fmt.Sprintf("BasicSlabStorage.SlabIDs() = %s, the map's keys are %s", joinOrDash(p), joinOrDash(want)))
+			}
 		case c < 95:
 			var err error
 			it, err = s.SlabIterator()
@@ -622,6 +653,10 @@ func (e *sidEnv) basicProgram(addrs [][8]byte, ids []atree.SlabID) {
 				panic(err)
 			}
 			itCount = s.Count()
+			itWant = entries()
+			if _, in := shadow[atree.SlabIDUndefined]; in {
+				itWant = nil // an entry filed under the undefined identifier looks like the end-of-iteration sentinel: no prediction
+			}
 			e.w.L("BOP iternew")
 			e.w.L("OBS ok")
 		default:
@@ -637,6 +672,17 @@ func (e *sidEnv) basicProgram(addrs [][8]byte, ids []atree.SlabID) {
 					drained = j
 				}
 				p = append(p, rawHex(id)+":"+verStr(slab))
+			}
+			// model-free: the entries present when the iterator was made, each once, then the sentinel for good
+			var yielded []string
+			for _, x := range p {
+				if !strings.HasPrefix(x, rawHex(atree.SlabIDUndefined)+":") {
+					yielded = append(yielded, x)
+				}
+			}
+			sort.Strings(yielded)
+			if (itWant != nil || itCount == 0) && joinOrDash(yielded) != joinOrDash(itWant) {
+				e.violation("C15", fmt.Sprintf("BasicSlabStorage.SlabIterator yielded %s, the map held %s when it was made", joinOrDash(yielded), joinOrDash(itWant)))
 			}
 			sort.Strings(p)
 			e.w.L("BOP iternext n=%d", itCount+2)
